@@ -64,7 +64,10 @@ class Ctx:
         """One deciding evaluation of the oracle.  ``key`` identifies the case for distinctness."""
         self.evaluations += 1
         if nontrivial and key is not None:
-            self.nontrivial.add(h(key))
+            if len(self.nontrivial) < 150000:  # beyond this the distinct count is a lower bound (memory)
+                self.nontrivial.add(h(key))
+            else:
+                self.counters["nontrivial-beyond-distinctness-cap"] += 1
 
     def sample(self, obj, force=False):
         if len(self.samples) < MAX_SAMPLES or force:
